@@ -132,6 +132,16 @@ def observe(H, g):
                 return entry("normcore", f"normalized_hypergraph_laplacian({sp})", rows=rows, cols=rows,
                              mr=[[frac(x) for x in row] for row in core.tolist()])
             guard(f"normalized_hypergraph_laplacian({sp})", nl)
+
+            def nlw():
+                L, rd = xgi.normalized_hypergraph_laplacian(H, weighted=True, sparse=sparse, index=True)
+                M = dense(L)
+                rows = [iN(rd[i]) for i in range(M.shape[0])]
+                deg = np.array([len(H._node[rd[i]]) for i in range(M.shape[0])], dtype=float)
+                core = (np.eye(len(deg)) - M) * np.sqrt(np.outer(deg, deg))
+                return entry("normcorew", f"normalized_hypergraph_laplacian(weighted=True,{sp})", rows=rows, cols=rows,
+                             mr=[[frac(x) for x in row] for row in core.tolist()])
+            guard(f"normalized_hypergraph_laplacian(weighted=True,{sp})", nlw)
     for d in (None, 1, 2):
         da = -1 if d is None else d
 
@@ -165,6 +175,11 @@ def _worker(args):
         g = Gamma(*fam)
         vname, emap = rng.choice(obscore.edge_id_variants(j, rng))
         H = obscore.realise(j, g, rng, shuffle=True, edge_id_map=emap)
+        # non-negative edge weights (0 switches an edge off); some edges keep the default
+        for e in list(H.edges):
+            w = rng.choice([None, 0, 1, 2, 3])
+            if w is not None:
+                H.edges[e]["weight"] = w
         st, anom = hg.proj(H, g)
         obs = observe(H, g)
         # one record per group of entries keeps single TLC evaluations small
